@@ -1107,12 +1107,13 @@ pub fn run_job<S: Service + 'static>(dom: &Domain, name: &str, job: &Value, tabl
         return;
     }
     let result = catch_unwind(AssertUnwindSafe(|| {
-        for act in &prog {
+        for (step, act) in prog.iter().enumerate() {
             let events = w.exec(act);
             let n = events.len();
             for (i, mut e) in events.into_iter().enumerate() {
                 let bad = if i + 1 == n { w.bad() } else { Vec::new() };
                 e.as_object_mut().unwrap().insert("bad".into(), json!(bad));
+                e.as_object_mut().unwrap().insert("i".into(), json!(step));
                 summary.count(&e);
                 tw.emit(&e);
             }
